@@ -254,6 +254,37 @@ fn dispatch(cmd: &str, a: &[&str]) -> Result<Vec<String>, String> {
             let got: Vec<(String, String)> = parsed.iter().map(|(p, v)| (p.property_name.clone(), if v.string.is_some() { v.string.clone().unwrap() } else { v.to_string() })).collect();
             Ok(vec![hex(if got == expect { b"same" } else { b"differs" }), hex(text.as_bytes()), hex(format!("{:?}", got).as_bytes())])
         }
+        "json_array_roundtrip" => {
+            // kind (arr-int|arr-bool|arr-string), integer type, items as text
+            use crate::json::array::integer::JSONArrayOfIntegers as AI;
+            let kind = ustr(a[0]); let ty = ustr(a[1]);
+            let items: Vec<String> = a[2..].iter().map(|x| ustr(x)).collect();
+            macro_rules! rt { ($t:ty, $to:ident, $from:ident) => {{
+                let v: Vec<$t> = items.iter().map(|x| x.parse::<$t>().unwrap()).collect();
+                let text = AI::$to(&v)?; let back = AI::$from(text.clone())?;
+                (back == v, text)
+            }} }
+            let (same, text) = if kind == "arr-int" {
+                match ty.as_str() {
+                    "i8" => rt!(i8, to_json_from_list_i8, parse_as_list_i8), "i16" => rt!(i16, to_json_from_list_i16, parse_as_list_i16),
+                    "i32" => rt!(i32, to_json_from_list_i32, parse_as_list_i32), "i64" => rt!(i64, to_json_from_list_i64, parse_as_list_i64),
+                    "i128" => rt!(i128, to_json_from_list_i128, parse_as_list_i128), "u8" => rt!(u8, to_json_from_list_u8, parse_as_list_u8),
+                    "u16" => rt!(u16, to_json_from_list_u16, parse_as_list_u16), "u32" => rt!(u32, to_json_from_list_u32, parse_as_list_u32),
+                    "u64" => rt!(u64, to_json_from_list_u64, parse_as_list_u64), _ => rt!(u128, to_json_from_list_u128, parse_as_list_u128),
+                }
+            } else if kind == "arr-bool" {
+                let v: Vec<bool> = items.iter().map(|x| x == "true").collect();
+                let text = crate::json::array::boolean::JSONArrayOfBooleans::to_json_from_list_bool(&v)?;
+                let back = crate::json::array::boolean::JSONArrayOfBooleans::parse_as_list_bool(text.clone())?;
+                (back == v, text)
+            } else {
+                let v: Vec<String> = items.clone();
+                let text = crate::json::array::string::JSONArrayOfStrings::to_json_from_list_string(&v)?;
+                let back = crate::json::array::string::JSONArrayOfStrings::parse_as_list_string(text.clone())?;
+                (back == v, text)
+            };
+            Ok(vec![hex(if same { b"same" } else { b"differs" }), hex(text.as_bytes())])
+        }
         "mime" => { Ok(vec![hex(crate::mime_type::MimeType::detect_mime_type(&ustr(a[0])).as_bytes())]) }
         "response_multipart_roundtrip" => {
             use crate::response::Response;
